@@ -279,6 +279,15 @@ func eval(c Case) (f *pbt.Fail) {
 			case "half":
 				all, err := io.ReadAll(io.LimitReader(rd, 37))
 				cl.data, cl.readErr = all, err
+			case "negative":
+				// a consumer that steps back (an Exif directory whose value offsets overlap makes the library's own reader
+				// ask for a negative skip): the box must refuse, not grow
+				if d, ok := rd.(interface{ Discard(int) (int, error) }); ok {
+					_, _ = d.Discard(-10)
+					_, _ = d.Discard(-1 << 20)
+				}
+				all, err := io.ReadAll(io.LimitReader(rd, 37))
+				cl.data, cl.readErr = all, err
 			default:
 				cl.data, cl.readErr = io.ReadAll(rd)
 			}
@@ -573,7 +582,7 @@ func genHeifItem(rt *rapid.T) Case {
 func genWell(rt *rapid.T) Case {
 	c := genWell0(rt)
 	c.Buf = rapid.SampledFrom([]int{0, 0, 4096, 4096, 16384}).Draw(rt, "bufio")
-	c.CB = rapid.SampledFrom([]string{"", "", "", "none", "half"}).Draw(rt, "callbacks-read")
+	c.CB = rapid.SampledFrom([]string{"", "", "", "none", "half", "negative"}).Draw(rt, "callbacks-read")
 	return c
 }
 
